@@ -206,6 +206,17 @@ theorem mapFieldB_sound {f : FieldD} (h : mapFieldB f = true) : MapField f := by
       k, abs, first, rest, isIdentB_sound hki, isIdentB_sound hf, fun r hr' => isIdentB_sound (hr r hr'), heq⟩
   · simp at hty
 
+/-- the scanner finds only tokens on the line -/
+def tokOkB (l : String) : Bool := (lexL l.toList 0).all (fun r => match r with | .tok _ _ => true | .comment _ _ => false)
+
+theorem tokOkB_sound {l : String} (h : tokOkB l = true) : TokOk l := by
+  intro r hr
+  simp only [tokOkB, List.all_eq_true] at h
+  have := h r hr
+  cases r with
+  | tok t ln => exact ⟨t, ln, rfl⟩
+  | comment _ _ => simp at this
+
 /-! ## fields with options: the evaluation `OptField` asks for -/
 
 mutual
@@ -352,7 +363,7 @@ theorem tyW_sound {label ty : String} {w : TyW} (h : tyW label ty = some w) : w.
 def optFieldB (f : FieldD) : Bool :=
   (match f.kind with | .field => true | .value => false) && locNoneB f.loc && f.opts.all (fun o => !o.hasLoc) &&
   labelOkB f.label && isIdentB f.name && !f.popts.isEmpty &&
-  (fieldLines 0 f).all (fun l => l.toList.all (fun c => c != '\n' && c != '/')) &&
+  (fieldLines 0 f).all (fun l => l.toList.all (fun c => c != '\n') && tokOkB l) &&
   (match tyW f.label f.type with
    | some w =>
      decide (fieldToks0 f = headToks f w 0 ++ rdBody f) &&
@@ -378,9 +389,9 @@ theorem optFieldB_sound {f : FieldD} (h : optFieldB f = true) : OptField f := by
     · exact Or.inr (Or.inl h)
     · exact Or.inr (Or.inr h)
   · intro he; simp [he] at hne
-  · intro l hl c hc
+  · intro l hl
     simp only [List.all_eq_true, Bool.and_eq_true, bne_iff_ne, ne_eq] at hnoch
-    exact hnoch l hl c hc
+    exact ⟨fun c hc => (hnoch l hl).1 c hc, tokOkB_sound (hnoch l hl).2⟩
   · split at hread
     · rename_i w hw
       obtain ⟨hwok, hty⟩ := tyW_sound hw
@@ -429,7 +440,7 @@ theorem optsOkB_sound {os os' : List SOpt} (h : optsOkB os os' = true) : optsOk 
 
 def blockOptsB (os : List SOpt) : Bool :=
   os.all (fun o => !o.hasLoc) &&
-  (optLines0 os).all (fun l => l.toList.all (fun c => c != '\n' && c != '/')) &&
+  (optLines0 os).all (fun l => l.toList.all (fun c => c != '\n') && tokOkB l) &&
   decide ((optChunks os).flatten = optToks0 os) &&
   (optChunks os).all (fun c => match Grammar.optionStmt c with | some (_, []) => true | _ => false) &&
   optsOkB os (mkOpts 0 (optRaws0 os)) &&
@@ -443,9 +454,9 @@ theorem blockOptsB_sound {os : List SOpt} (h : blockOptsB os = true) : BlockOpts
   · intro o ho
     simp only [List.all_eq_true, Bool.not_eq_true'] at hu
     exact hu o ho
-  · intro l hl c hc
+  · intro l hl
     simp only [List.all_eq_true, Bool.and_eq_true, bne_iff_ne, ne_eq] at hnoch
-    exact hnoch l hl c hc
+    exact ⟨fun c hc => (hnoch l hl).1 c hc, tokOkB_sound (hnoch l hl).2⟩
   · intro c hc
     simp only [List.all_eq_true] at hchunks
     have := hchunks c hc
@@ -581,7 +592,7 @@ theorem simpleRpcsB_sound : ∀ es, simpleRpcsB es = true → SimpleRpcs es
 
 def simpleTopB : Item → Bool
   | .block kw t l i name os ks =>
-    if kw == "service" then locNoneB l && os.isEmpty && isIdentB name && t == 0 && simpleRpcsB ks
+    if kw == "service" then locNoneB l && blockOptsB os && isIdentB name && t == 0 && simpleRpcsB ks
     else t != 0 && simpleItemB (.block kw t l i name os ks)
   | _ => false
 
@@ -592,7 +603,7 @@ theorem simpleTopB_sound : ∀ e, simpleTopB e = true → SimpleTop e
     · rename_i hkw
       simp only [Bool.and_eq_true, beq_iff_eq] at h hkw
       obtain ⟨⟨⟨⟨hl, ho⟩, hn⟩, ht⟩, hk⟩ := h
-      exact Or.inr ⟨locNoneB_sound hl, by simpa using ho, isIdentB_sound hn, hkw, ht, simpleRpcsB_sound ks hk⟩
+      exact Or.inr ⟨locNoneB_sound hl, blockOptsB_sound ho, isIdentB_sound hn, hkw, ht, simpleRpcsB_sound ks hk⟩
     · simp only [Bool.and_eq_true, bne_iff_ne, ne_eq] at h
       exact Or.inl ⟨simpleItemB_sound _ h.2, h.1⟩
   | .field _, h => by simp [simpleTopB] at h
@@ -678,7 +689,7 @@ def itemTags : Item → List String
   | .field f => fieldTags f
   | .rpc l _ _ _ _ os => locTags l ++ (if os.isEmpty then [] else ["options"])
   | .block kw _ l _ _ os ks =>
-    locTags l ++ (if (kw == "message" || kw == "enum") && blockOptsB os then [] else if os.isEmpty then [] else ["options"]) ++ (if kw == "oneof" then ["oneof"] else []) ++ itemsTags ks
+    locTags l ++ (if (kw == "message" || kw == "enum" || kw == "service") && blockOptsB os then [] else if os.isEmpty then [] else ["options"]) ++ (if kw == "oneof" then ["oneof"] else []) ++ itemsTags ks
 def itemsTags : List Item → List String
   | [] => []
   | e :: r => itemTags e ++ itemsTags r
